@@ -44,6 +44,7 @@ var c15DecoyPool = []string{
 	"tests/regression/tests/REQUEST-932/9321000.yaml", "tests/regression/tests/REQUEST-932/932100.yaml.bak", "tests/regression/tests/REQUEST-932/932100.yaml~", "tests/regression/tests/REQUEST-932/notes.txt", "tests/regression/tests/REQUEST-932/93210.yaml", "tests/regression/tests/REQUEST-932/932100.json", "tests/regression/README.md",
 	"tests/regression/tests/REQUEST-932/932101", "tests/regression/tests/REQUEST-932/932120.json", "tests/regression/tests/REQUEST-932/932130.yaml.disabled", "tests/regression/tests/REQUEST-932/932140.txt",
 	"crs-setup.conf.example.bak", "docs/example.md", "crs-setup.conf.example.tmp", "rules/REQUEST-932-APPLICATION-ATTACK-RCE.conf.tmp", "rules/REQUEST-901-INITIALIZATION.conf.tmp", "regex-assembly/932100.ra.tmp", "tests/regression/tests/REQUEST-932/932100.yaml.tmp",
+	"rules/A-COPY-932-APPLICATION-ATTACK-RCE.conf", "rules/zz-932-merged.conf",
 	"regex-assembly-archive/old.ra", "regex-assembly.bak/932100.ra", "rules-old/REQUEST-932-APPLICATION-ATTACK-RCE.conf", "util/tool.confx", "INSTALL", ".github/workflows/x.yaml",
 }
 
